@@ -783,14 +783,24 @@ class DateParserPlugin(plugins.Plugin):
                 return self.errorize(text, node)
             else:
                 n = DateTimeNode(node.fieldname, dt, node.boost)
-        except DateParseError:
+        except (DateParseError, ValueError):
+            # (ValueError: a date outside the range of datetime, e.g. year 0)
             e = sys.exc_info()[1]
-            n = self.errorize(e, node)
+            # (an error node takes its position from the node it wraps)
+            return self.errorize(e, node)
         n.startchar = node.startchar
         n.endchar = node.endchar
         return n
 
     def range_to_dt(self, node):
+        try:
+            return self._range_to_dt(node)
+        except (DateParseError, ValueError):
+            # (ValueError: a date outside the range of datetime, e.g. year 0)
+            e = sys.exc_info()[1]
+            return self.errorize(e, node)
+
+    def _range_to_dt(self, node):
         start = end = None
         dp = self.dateparser.get_parser()
 
